@@ -88,6 +88,10 @@ pub enum Op {
     Parse(usize),
     Check(usize),
     DefineAgain(usize),
+    /// Parse / Check started from a stack segment the APPLICATION allocated with `stacker::grow`
+    /// (as rustc-style `ensure_sufficient_stack` wrappers do): one thread then enters the recursive
+    /// parser from different stack segments in the course of a history.
+    ParseOnSegment(usize, bool),
 }
 
 #[derive(Clone, Debug, PartialEq, Eq, Serialize, Deserialize)]
@@ -951,6 +955,11 @@ fn run_history<'a>(c: &LifeCase, input: &'a [u8]) -> History {
                 let (o, k) = pool[i % n].run(input, true);
                 OpResult::Parsed(o, k)
             }
+            Op::ParseOnSegment(i, check) if n > 0 => {
+                let h = &pool[i % n];
+                let (o, k) = stacker::grow(192 * 1024, || h.run(input, *check));
+                OpResult::Parsed(o, k)
+            }
             Op::DefineAgain(i) if n > 0 => {
                 // pick an Indirect handle if there is one
                 let k = (0..n).map(|d| (i + d) % n).find(|k| matches!(pool[*k], H::Ind(_)));
@@ -1066,8 +1075,8 @@ pub fn exec_case(c: &LifeCase) -> CaseRun {
     let mut disagree = false;
     for (op, res) in c.ops.iter().zip(results.iter()) {
         match (op, res) {
-            (Op::Parse(_) | Op::Check(_), OpResult::Parsed(o, calls)) => {
-                let check = matches!(op, Op::Check(_));
+            (Op::Parse(_) | Op::Check(_) | Op::ParseOnSegment(..), OpResult::Parsed(o, calls)) => {
+                let check = matches!(op, Op::Check(_) | Op::ParseOnSegment(_, true));
                 digest = fold(digest, o.digest());
                 if use_unroll {
                     let slot = if check { &mut ref_check } else { &mut ref_parse };
@@ -1230,7 +1239,8 @@ pub fn gen_case(seed: u64, idx: u64, tier: &str) -> LifeCase {
     let nops = rng.range(1, 10);
     for _ in 0..nops {
         let i = rng.usize(8);
-        ops.push(match rng.below(12) {
+        ops.push(match rng.below(13) {
+            12 => Op::ParseOnSegment(i, rng.chance(1, 3)),
             0 | 1 | 2 => Op::Clone(i),
             3 | 4 => Op::Drop(i),
             5 => Op::Drop(0), // the handle recursive()/declare() returned
@@ -1245,7 +1255,7 @@ pub fn gen_case(seed: u64, idx: u64, tier: &str) -> LifeCase {
     if depth > 50_000 {
         let mut seen = 0;
         ops.retain(|o| {
-            if matches!(o, Op::Parse(_) | Op::Check(_)) {
+            if matches!(o, Op::Parse(_) | Op::Check(_) | Op::ParseOnSegment(..)) {
                 seen += 1;
                 seen <= 1
             } else {
@@ -1316,6 +1326,7 @@ impl Engine for LifeSim {
         acc.add("fired.drop_original_handle", c.ops.iter().filter(|o| matches!(o, Op::Drop(0))).count() as u64);
         acc.add("fired.clone", c.ops.iter().filter(|o| matches!(o, Op::Clone(_))).count() as u64);
         acc.add("fired.boxed", c.ops.iter().filter(|o| matches!(o, Op::Boxed(_))).count() as u64);
+        acc.add("fired.parse_started_on_an_application_allocated_stack_segment", c.ops.iter().filter(|o| matches!(o, Op::ParseOnSegment(..))).count() as u64);
         if let Some(o) = &run.premature {
             acc.inc("fired.premature_parse_before_first_define");
             if o.is_panic() {
@@ -1323,7 +1334,7 @@ impl Engine for LifeSim {
             }
         }
         acc.add("sim_steps.lifecycle_ops_plus_input_tokens", c.ops.len() as u64 + (2 * c.depth as u64 + 1) * run.results.iter().filter(|r| matches!(r, OpResult::Parsed(..))).count() as u64);
-        let pos_parse = c.ops.iter().position(|o| matches!(o, Op::Parse(_) | Op::Check(_))).unwrap_or(0);
+        let pos_parse = c.ops.iter().position(|o| matches!(o, Op::Parse(_) | Op::Check(_) | Op::ParseOnSegment(..))).unwrap_or(0);
         let lifecycle_nontrivial = c.ops.len() >= 3 && c.ops[..c.ops.len() - 1].iter().any(|o| matches!(o, Op::Drop(_) | Op::DefineAgain(_))) && pos_parse < c.ops.len();
         let depth_nontrivial = c.depth >= 1000 && c.stack_kib <= 256;
         let d = fold(run.digest, fold_bytes(3, serde_json::to_string(&c).unwrap().as_bytes()));
@@ -1375,7 +1386,7 @@ pub fn shrink_candidates(c: &LifeCase) -> Vec<LifeCase> {
         if c.ops.len() > 1 {
             let mut x = c.clone();
             x.ops.remove(i);
-            if x.ops.iter().any(|o| matches!(o, Op::Parse(_) | Op::Check(_) | Op::DefineAgain(_))) {
+            if x.ops.iter().any(|o| matches!(o, Op::Parse(_) | Op::Check(_) | Op::ParseOnSegment(..) | Op::DefineAgain(_))) {
                 v.push(x);
             }
         }
